@@ -17,7 +17,7 @@
 From Coq Require Import List Arith Bool NArith Ring.
 From Verif.lib Require Import FinSet.
 From Verif.C04 Require Import Model Proofs ProofsFun ProofsMesh.
-From Verif.C03 Require Import Model Proofs Proofs2 Proofs3 Proofs4 Proofs5 Proofs6.
+From Verif.C03 Require Import Model Proofs Proofs2 Proofs3 Proofs4 Proofs5 Proofs6 Proofs7 Proofs8.
 Import ListNotations.
 
 (* neighbours are complete: for every space st (no reachability needed), every level pair i < k (REPAIRED code:
@@ -175,7 +175,7 @@ Print Assumptions hassemble_entry_partial.
    fact for the C05 knot-insertion matrices (C05 works over knot functions nat -> Qc, no link to C04's integer tables yet);
    mesh_ok etc. follow from C04's hier_ok once that is discharged there.  Also NOT PROVED: that the sparse-matrix program
    assemble_hb (fancy indexing, sparse products, represent_fine) evaluates blk_entry; the COO stage of it is proved
-   (coo_merge_sums_duplicates, insert_block_entries, fancy_index_rows, fancy_index_columns, sm_mul_entry, sm_transpose_entry below: the kernels; the Kronecker product kron2, the represent_fine loop rf_loop/hstack and the chaining of the kernels through level_blocks with the canonical-index arithmetic -- hassemble_program_entry -- are not), the rest is compared exactly on sampled entries of every history
+   (coo_merge_sums_duplicates, insert_block_entries, fancy_index_rows, fancy_index_columns, sm_mul_entry, sm_transpose_entry below: the kernels; kron2_entry further below; the represent_fine loop rf_loop/hstack and the chaining of the kernels through level_blocks with the canonical-index arithmetic -- hassemble_program_entry -- are not), the rest is compared exactly on sampled entries of every history
    of the correspondence run and on all entries of Examples.ex_sparse_program_is_entry_form (tests). *)
 
 (* Load vector (assemble_functional, HB): entry number offset_k + p is the entry of the level-k tensor-product load vector
@@ -273,3 +273,51 @@ Theorem sm_transpose_entry : forall (R : Type) (r0 r1 : R) radd rmul rsub ropp,
   sm_get R r0 (sm_transpose R ncols M) j i = sm_get R r0 M i j.
 Proof. exact sm_transpose_entry_l. Qed.
 Print Assumptions sm_transpose_entry.
+
+(* P_local and the prolongator-shape hypothesis DISCHARGED from C04 (children_inside_parent_support, coq/C04/Children.v).
+   pattern_ok R axes disp ops pmat : the stored sparsity pattern of the 1-D prolongator of level lv, axis d lies inside the
+   children pattern is_child_1d that C04/Children.v models for that axis (phi(j) <= i <= phi(j+p+1)-(p+1); C04's run compares
+   that pattern exactly with HMesh.function_children of the implementation).  For every reachable space, every prolongator
+   data with that pattern and every local family of level forms a: the blocks of the assembly equal the form applied to the
+   two hierarchical basis functions represented on the finer of their two levels -- all pairs of active functions. *)
+Theorem hassemble_entry_pattern_partial : forall (R : Type) (r0 r1 : R) radd rmul rsub ropp,
+  ring_theory r0 r1 radd rmul rsub ropp eq ->
+  forall axes disp ops,
+  Forall axis_ok axes -> (forall d, disp = Some d -> 1 <= d) -> ops_valid (hs_init axes disp) ops ->
+  forall (pmat : nat -> nat -> smat R),
+  pattern_ok R axes disp ops pmat ->
+  forall (a : nat -> mi -> mi -> R),
+  local R r0 (run (hs_init axes disp) ops) a ->
+  forall li fi lj fj,
+  li < numlevels (run (hs_init axes disp) ops) -> lj < numlevels (run (hs_init axes disp) ops) ->
+  In fi (AFm (run (hs_init axes disp) ops) li) -> In fj (AFm (run (hs_init axes disp) ops) lj) ->
+  blk_entry R r0 radd rmul a (repc R r0 r1 radd rmul (run (hs_init axes disp) ops) pmat) (nbr (run (hs_init axes disp) ops))
+            (interlevel R (run (hs_init axes disp) ops) pmat) (to_assemble R (run (hs_init axes disp) ops) pmat) false li fi lj fj
+  = spec_entry R r0 radd rmul a (repc R r0 r1 radd rmul (run (hs_init axes disp) ops) pmat)
+               (fun k => tp_functions (msh (run (hs_init axes disp) ops) k)) li fi lj fj.
+Proof. exact hassemble_entry_pattern_l. Qed.
+Print Assumptions hassemble_entry_pattern_partial.
+(* NOT PROVED: pattern_ok for the exact Boehm prolongators of C05 (their non-zero pattern is C04's is_child_1d pattern:
+   C05 speaks about knot functions nat -> Qc, C04 about integer tables; both are tied to the implementation separately). *)
+
+(* the prolongator-shape fact: on reachable spaces interlevel_ix[k] (function_grandchildren through the stored pattern) lies
+   in the index box of level k *)
+Theorem interlevel_in_index_box : forall (R : Type) axes disp ops,
+  Forall axis_ok axes -> (forall d, disp = Some d -> 1 <= d) -> ops_valid (hs_init axes disp) ops ->
+  forall (pmat : nat -> nat -> smat R), pattern_ok R axes disp ops pmat ->
+  forall k r, k < numlevels (run (hs_init axes disp) ops) ->
+  In r (interlevel R (run (hs_init axes disp) ops) pmat k) -> In r (tp_functions (msh (run (hs_init axes disp) ops) k)).
+Proof. exact interlevel_in_box. Qed.
+Print Assumptions interlevel_in_index_box.
+
+(* kron2_entry: scipy.sparse.kron(A, B) -- entry (i1 * nB + i2, j1 * mB + j2) of the sparse Kronecker product is
+   A[i1, j1] * B[i2, j2], for all sparse matrices (no sortedness needed) whose B-columns lie below mB. *)
+Theorem kron2_entry : forall (R : Type) (r0 r1 : R) radd rmul rsub ropp,
+  ring_theory r0 r1 radd rmul rsub ropp eq ->
+  forall (A B : smat R) mB i1 i2 j1 j2,
+  i1 < length A -> i2 < length B -> (j2 < mB)%N ->
+  (forall rb x, In rb B -> In x (keys R rb) -> (x < mB)%N) ->
+  sm_get R r0 (kron2 R rmul A B mB) (N.of_nat (i1 * length B + i2)) (j1 * mB + j2)%N
+  = rmul (sm_get R r0 A (N.of_nat i1) j1) (sm_get R r0 B (N.of_nat i2) j2).
+Proof. exact kron2_entry_l. Qed.
+Print Assumptions kron2_entry.
